@@ -1,7 +1,8 @@
 """C07 — wavefront views agree with each other and planes act as pointwise phasors.
 
-Tie: Gen/PlanePx.lean (`_mul_pixelscale`, four None-patterns) and Gen/Helper.lean (`slice_offset`) are regenerated from
-lentil/plane.py and lentil/helper.py; Model/Plane.lean + Model/PlaneMeta.lean (Plane.multiply loop, phasor construction,
+Tie: Gen/PlanePx.lean (`_mul_pixelscale`, four None-patterns), Gen/PlaneLoop.lean (the loop body of Plane.multiply at one
+sample: mask selection, amp/opd branches, phasor data, slice_offset arguments, append guard) and Gen/Helper.lean
+(`slice_offset`) are regenerated from lentil/plane.py and lentil/helper.py; Model/Plane.lean + Model/PlaneMeta.lean (Plane.multiply loop, phasor construction,
 boundary_slice, Wavefront.field/intensity/insert, metadata hand-over) are hand-written and compared here with the real
 lentil on two streams: `gi` (small integer amplitudes, OPD = k*lambda/4 so the phasor is a power of i: exact comparison
 after rounding the implementation's 1e-16 dust) and `cf` (generic floats, tolerance 1e-9*(1+|input|))."""
@@ -14,14 +15,14 @@ LEVEL_TEXT = ('Lean 4 theorems, for all shapes/offsets/data and any number of ov
               'amplitude*exp(2 pi i opd/lambda) inside the mask and by 0 outside, for scalar/array amplitude, OPD and mask in every '
               'combination (explicit Complex.exp for any segment list and for scalar masks); wavelength is handed over unchanged, the focal length passes through a plane unchanged when truthy and becomes inf when None/0 (generated Wavefront.__init__ rule), a Pupil hands over its focal length, along any chain of Plane/Pupil/Image steps the wavelength never changes and every phasor uses that wavelength (chain_keeps_wavelength), the plane with default attributes returns the very same wavefront (default_plane_changes_nothing; one-element fields: default_plane_identity), '
               '_mul_pixelscale (regenerated from plane.py on every run) refuses exactly the defined-and-different pairs, independently of the unit of length; the phase argument, the metadata hand-over of Plane/Pupil/Image.multiply and the wiring of the three views (which goes through reduce, intensity flag, weight) are regenerated from the source and consumed by the model; insert/intensity always return (C06 reduce_defined). The array plumbing '
-              'is a hand model checked against the implementation on exact and floating-point data.')
+              'is a hand model checked against the implementation on exact and floating-point data; its per-segment phasor is proved equal, sample by sample, to the loop body regenerated from plane.py:456-467 (Gen/PlaneLoop: loop_body_is_segPhasor, loop_mask_and_keep); Plane.shape, Plane.size and the ndim dispatch of _plane_slice are regenerated (Gen/PlaneGeom) and proved to give the model\'s shape, segment count and one bounding slice per layer for 0-d, 2-D and 3-D masks with any number of layers incl. one (plane_geometry_matches_model).')
 LEVEL_NOTE = ('Partial: (1) fields/segments with exactly one element are excluded by hypothesis (lentil treats every size-1 array as a '
               'broadcastable scalar; open known finding KF-C07-one-pixel-segment, which includes one-sample fields off centre under a default plane; not repaired because C06 as given makes a (1,1) array a broadcastable constant: the two properties conflict on that input and the code follows C06); '
               '(2) chains that interleave planes and propagations are covered step by step by theorems and as a whole by correspondence and oracle only; '
               '(3) views on shape-() / zero-dimensional data are oracle-only; (4) multiply overrides other than Plane/Pupil/Image/Tilt are not exercised. Trusted: Lean kernel, py2lean subset '
               'semantics, NumPy slicing/broadcast/exp semantics as modelled, generator coverage of the correspondence.')
 TECHNIQUE = 'Lean 4 proof (omega/induction/ring) over translator-regenerated kernels + hand model with differential correspondence'
-GEN = ['Extent', 'FieldDispatch', 'FieldIdx', 'FieldMerge', 'Helper', 'Helper20', 'Hex', 'Mesh', 'PlaneHandover', 'PlanePhase', 'PlanePx', 'PropagateMeta', 'TiltFit', 'Util', 'Window', 'WfViews', 'FieldAccum']
+GEN = ['Extent', 'FieldDispatch', 'FieldIdx', 'FieldMerge', 'Helper', 'Helper20', 'Hex', 'Mesh', 'PlaneHandover', 'PlanePhase', 'PlanePx', 'PropagateMeta', 'TiltFit', 'Util', 'Window', 'WfViews', 'FieldAccum', 'PlaneLoop', 'PlaneGeom']
 OPS = ['C07', 'C03']
 RULE = ('cases: chains of 1..4 planes on a fresh wavefront, the class drawn per plane among Plane, Pupil, Image, Tilt, Plane(ptype=pupil) within the '
         'admitted plane types, scalar/array amplitude, OPD and None/scalar/2-D/3-D mask in every combination (segments 1..5, overlapping boxes, '
@@ -32,8 +33,9 @@ RULE = ('cases: chains of 1..4 planes on a fresh wavefront, the class drawn per 
         'of the failing-input search); oracle-only views on shape-() wavefronts, zero-dimensional fields and a single (1,1) field. '
         'distinct = canonical (mode, plane kinds, attribute kinds, shapes, boxes) signature; non-trivial = at least one array attribute or more than one field')
 TRUSTED = ['the constructor\'s mask normalisation (mask != 0, mask=None -> amplitude != 0) is applied by the harness (plane_mask_layers) before the model sees a plane; Plane.__init__ is pinned',
+           'the model\'s MaskM (.scalar / .segs s0 s1 layers) is built by the harness from mask.ndim and mask.shape; that Plane.shape / Plane.size / _plane_slice read a mask of that ndim/shape the same way is proved over the regenerated Gen/PlaneGeom (plane_geometry_matches_model); 1-D masks (ndim 1: Ellipsis slice, shape (n,)) are not generated',
            'NumPy casting in out[...] += ...: accumulation targets are float64 arrays',
-           'NumPy slicing/broadcasting of amplitude[s]*mask[s]*exp(2 pi i opd[s]/wavelength) and util.boundary (modelled by hand in Model/Plane.lean)',
+           'NumPy slicing and elementwise product/broadcast: the loop body of Plane.multiply (which attribute is sliced under which size test, the * mask[s] factor of both branches, amp*np.exp(..), slice_offset(s, self.shape), the res.size > 0 guard, the ndim < 3 mask selection) is regenerated into Gen/PlaneLoop.lean as its value at one sample of the slice and proved equal to the hand model segPhasor (loop_body_is_segPhasor, loop_mask_and_keep); that A[s] reads the samples of the slice and that * is elementwise is the trusted reading; util.boundary (first/last set row/column) is modelled by hand in Model/Plane.lean (bboxSlice), the clamping arithmetic of helper.boundary_slice on top of it is regenerated (Gen/Helper20, C03 segment_slices_are_boundary_slices)',
            'pixel scales are compared for equality only; the model carries them as integers',
            'np.exp(1j*t) = cos t + i sin t (Float model) ; |z**2| = re^2 + im^2 up to rounding']
 UNPROVEN = ['fields and segment phasors with exactly one element are outside the theorems (known finding KF-C07-one-pixel-segment)',
